@@ -6,7 +6,7 @@
 //             sched <len> <ints...>
 //     stdout per case:
 //        ref <id> na <na> alpha <hex..> res <hex..> chosen <a> feasible <0|1> x <hex..> H1 <k> <ints> residual <hex>
-//        out <id> ret <0|1> x <hex..> H1 <k> <ints> residual <hex> calcs <n> consumed <n> steps <n> trace <tid:K ...>
+//        out <id> ret <0|1> x <hex..> H1 <k> <ints> residual <hex> calcs <n> consumed <n> steps <n> drift <malloc_count> <memory_inuse> trace <tid:K ...>
 //     or  fail <id> <what + thread states | trace>    and the process exits (the caller restarts after it)
 //   C12_harness nnls       stdin: case <id> n <n> m <m> seed <s> corr <c> threads <list..>;  stdout: nnlsbegin/nnlsend <id> <T> n <n> x <hex..>
 //   C12_harness fit        stdin: case <id> dim <1|2> ns <samples/dim> nk <knots/dim> order <o> mono <dim> shape <k> noise <seed> threads <list..>
@@ -116,6 +116,9 @@ static int run_sched()
 		std::vector<long> H1(nF + 1, -1); long nH1 = 0, nFv = nF; double residual = NAN; int calcs = 0;
 		bool forced = !(sched.size() == 1 && sched[0] == -1);           // "sched 1 -1" = free-running (no scheduler)
 		if (forced) verif_sched_load(sched.data(), (int)sched.size(), on_fail);
+		// CHOLMOD's allocation statistics in the (shared) common: everything walk_descents allocates it also frees,
+		// so both must be back at their values afterwards unless concurrent workers lost an update (D15)
+		size_t mc0 = c.malloc_count, mi0 = c.memory_inuse;
 		int ret = walk_descents(AtA_F, Atb_F, xd, xFd, F.data(), &nFv, H1.data(), &nH1, &residual, &calcs, 0, &c);
 		long consumed = forced ? verif_sched_consumed() : 0;
 		static char tbuf[1 << 20]; int steps = 0; tbuf[0] = 0;
@@ -124,7 +127,9 @@ static int run_sched()
 		for (long k = 0; k < n; k++) printf(" %s", hexd(((double *)xd->x)[k]).c_str());
 		printf(" H1 %ld", nH1);
 		for (long k = 0; k < nH1; k++) printf(" %ld", H1[k]);
-		printf(" residual %s calcs %d consumed %ld steps %d trace %s\n", ret ? hexd(residual).c_str() : "-", calcs, consumed, steps, tbuf);
+		printf(" residual %s calcs %d consumed %ld steps %d drift %ld %ld trace %s\n", ret ? hexd(residual).c_str() : "-", calcs, consumed, steps,
+		    (long)(c.malloc_count - mc0), (long)(c.memory_inuse - mi0), tbuf);
+		c.malloc_count = mc0; c.memory_inuse = mi0;
 		fflush(stdout);
 		cholmod_l_free_sparse(&AtA_F, &c); cholmod_l_free_dense(&Atb_F, &c); cholmod_l_free_dense(&xd, &c); cholmod_l_free_dense(&xFd, &c);
 	}
